@@ -83,7 +83,10 @@ TRUSTED = {
             'ASSUMED: BDDTerminalNode.__new__ (class-level dictionary Tnodes keyed by 0/1/False/True is not modelled): returns the terminal of the value and leaves constructed nodes as they are',
             'the OBDD wrapper: OBDD.apply, &, |, ^, ~ return a new OBDD over the same ordering whose root denotes the pointwise combination / complement; a normal return of OBDD.apply implies equal orderings '
             '(different orderings: RuntimeError; Ordering.__eq__ is uninterpreted); the operator lambdas are evaluated symbolically; OBDD.__init__ for the leg (node, Ordering)',
-            'NOT under proof (bounded only): orderedness of results (Ordering.in_order and respect_ordering are uninterpreted: the decomposition chosen does not matter for the function computed), variables(), '
+            'orderedness: a second GHOST component records the orderings a node\'s diagram respects (variable before its children\'s, children respect it); proved: if the operands of apply/compute/the decompositions, '
+            '__invert__, cache_restrict/compute_restrict respect an ordering then so does the result, and no variable before the tops of all operands is at or after the top of the result; '
+            'in_order(x, y) is modelled as position(x) < position(y) (ListOrdering.cmp; FunctionOrdering is not covered); reducedness (distinct children) is part of the table invariant (C16)',
+            'NOT under proof (bounded only): orderedness at the OBDD-wrapper level (equal orderings are different objects; respect_ordering is uninterpreted), variables(), '
             'OBDD.restrict / BDDNode.restrict\'s argument normalisation, the expression parser, garbage collection (TB7)',
             'apply/compute may raise RuntimeError ("Unsupported configuration") when the ordering relates the two variables in no direction; the contract allows it without saying when'],
     'C02': ['only the wrapper LTL.modelcheck (object formula A g, F=None) is under proof: result = states all of whose paths satisfy g, GIVEN the assumed '
